@@ -56,7 +56,8 @@ pub fn generate(rng: &mut Rng, fam: Family) -> Value {
         fam
     };
     let mut q = match fam {
-        Family::Join => match rng.below(14) {
+        Family::Join => match rng.below(15) {
+            14 => json!({"t": "recursive", "c": rng.below(700) as i64 - 300, "depth": rng.range(1, 3), "dedup": rng.chance(1, 3)}),
             0 => json!({"t": "nlj", "jt": *rng.pick(&["inner", "left", "right", "full", "semi", "anti", "rsemi", "ranti"])}),
             1 => json!({"t": "cross"}),
             2 => json!({"t": "notin"}),
@@ -139,6 +140,9 @@ pub fn generate(rng: &mut Rng, fam: Family) -> Value {
         },
     };
     // type variants (a third of the queries)
+    if q["t"] == json!("recursive") {
+        return q;
+    }
     if rng.chance(1, 3) {
         q["kt"] = json!(pick_kt(rng));
     }
@@ -309,6 +313,14 @@ pub fn sql(q: &Value) -> Option<String> {
             }
         }
         "cross" => format!("SELECT a.id, b.id FROM {a} CROSS JOIN {b}"),
+        // a recursive CTE: the recursive term (a join of the working table with b) is executed once per
+        // iteration, with a different build side each time (type variants do not apply)
+        "recursive" => format!(
+            "WITH RECURSIVE r(k, d) AS (SELECT k, 0 FROM a WHERE v > {c} UNION {all} SELECT CAST(abs(b.v) % 7 AS INT), r.d + 1 FROM r JOIN b ON r.k = b.k WHERE r.d < {depth}) SELECT k, d, count(*) FROM r GROUP BY k, d",
+            c = q.get("c")?.as_i64()?,
+            depth = q.get("depth")?.as_u64()?.min(3),
+            all = if q.get("dedup")?.as_bool()? { "" } else { "ALL" },
+        ),
         "notin" => format!("SELECT id FROM {a} WHERE k NOT IN (SELECT k FROM {b})"),
         "mark" => {
             let res = if q.get("residual")?.as_bool()? { " AND a.v < b.v" } else { "" };
@@ -502,19 +514,19 @@ pub fn sql(q: &Value) -> Option<String> {
 pub fn uses_b(q: &Value) -> bool {
     matches!(
         q.get("t").and_then(|t| t.as_str()).unwrap_or(""),
-        "join" | "nlj" | "cross" | "notin" | "mark" | "setop" | "union_all" | "union" | "union_sorted" | "join_agg" | "join3" | "in_subquery" | "scalar_subquery"
+        "join" | "nlj" | "cross" | "notin" | "mark" | "setop" | "union_all" | "union" | "union_sorted" | "join_agg" | "join3" | "in_subquery" | "scalar_subquery" | "recursive"
     )
 }
 
 /// Templates whose result can grow with the product of the table sizes: small tables only.
 pub fn needs_small_tables(q: &Value) -> bool {
-    matches!(q.get("t").and_then(|t| t.as_str()).unwrap_or(""), "cross" | "nlj" | "join3")
+    matches!(q.get("t").and_then(|t| t.as_str()).unwrap_or(""), "cross" | "nlj" | "join3" | "recursive")
 }
 
 pub fn has_reference(q: &Value) -> bool {
     matches!(
         q.get("t").and_then(|t| t.as_str()).unwrap_or(""),
-        "join" | "nlj" | "cross" | "notin" | "mark" | "setop" | "groupby" | "groupby_filter" | "groupby_ord" | "rollup" | "having" | "distinct_aggs" | "groupby_str"
+        "join" | "nlj" | "cross" | "notin" | "mark" | "setop" | "recursive" | "groupby" | "groupby_filter" | "groupby_ord" | "rollup" | "having" | "distinct_aggs" | "groupby_str"
             | "topk_ties" | "distinct_limit" | "global" | "distinct" | "topk_agg" | "sort" | "sort1" | "sort2" | "window_topn" | "limit_any" | "union_sorted"
     )
 }
@@ -737,6 +749,46 @@ pub fn reference(q: &Value, a: &[Row], b: &[Row]) -> Option<Vec<Cells>> {
         }
         "nlj" => join_reference(a, b, q.get("jt")?.as_str()?, v_less),
         "cross" => join_reference(a, b, "inner", |_, _| true),
+        "recursive" => {
+            let c = q.get("c")?.as_i64()?;
+            let depth = q.get("depth")?.as_u64()?.min(3) as i64;
+            let dedup = q.get("dedup")?.as_bool()?;
+            // working table: (k, d) rows; UNION (without ALL) removes duplicates against everything seen
+            let mut all: Vec<(Option<i32>, i64)> = vec![];
+            let mut seen: BTreeSet<(Option<i32>, i64)> = BTreeSet::new();
+            let mut work: Vec<(Option<i32>, i64)> = vec![];
+            for r in a.iter().filter(|r| r.v.is_some_and(|v| v > c)) {
+                let row = (r.k, 0);
+                if !dedup || seen.insert(row) {
+                    work.push(row);
+                }
+            }
+            while !work.is_empty() {
+                all.extend(work.iter().cloned());
+                let mut next = vec![];
+                for (k, d) in &work {
+                    if *d >= depth {
+                        continue;
+                    }
+                    let Some(k) = k else { continue };
+                    for rb in b.iter().filter(|rb| rb.k == Some(*k)) {
+                        let row = (rb.v.map(|v| (v.abs() % 7) as i32), d + 1);
+                        if !dedup || seen.insert(row) {
+                            next.push(row);
+                        }
+                    }
+                }
+                work = next;
+                if all.len() > 2_000_000 {
+                    return None;
+                }
+            }
+            let mut counts: BTreeMap<(Option<i32>, i64), i64> = BTreeMap::new();
+            for r in all {
+                *counts.entry(r).or_insert(0) += 1;
+            }
+            counts.into_iter().map(|((k, d), n)| vec![k.map(|x| x.to_string()), i(d), i(n)]).collect()
+        }
         "notin" => {
             let b_has_null = b.iter().any(|r| r.k.is_none());
             a.iter()
